@@ -212,6 +212,6 @@ def SState.run (mm0 : Option Int) (cut : Nat → Nat) : SState → List SOp → 
   | s, op :: ops => let (s', o) := s.step mm0 cut op; o :: SState.run mm0 cut s' ops
 
 /-- The value of `memSeries.mmMaxTime` of a snapshot-loaded series in the code as found. -/
-def codeMm0 : Option Int := some 0
+def codeMm0 : Option Int := none
 
 end Prom.Db
